@@ -79,6 +79,11 @@ class Register:
                     raise JaqalError(
                         f"Cannot slice parameter {alias_from.name} of non-register kind {alias_from.kind}."
                     )
+            elif any(
+                isinstance(bound, float) and not bound.is_integer()
+                for bound in (alias_slice.start, alias_slice.stop, alias_slice.step)
+            ):
+                raise JaqalError(f"Cannot slice {alias_from.name} with {alias_slice}.")
             elif alias_from.size is not None and not isinstance(
                 alias_from.size, AnnotatedValue
             ):
